@@ -186,3 +186,24 @@ package wasm
 //@   ensures SpecEmitted[e] == old(SpecEmitted[e]) + 1 && SpecLastOp[e] == op
 //@   ensures forall x *Writer :: x != e ==> SpecEmitted[x] == old(SpecEmitted[x]) && SpecLastOp[x] == old(SpecLastOp[x])
 //@   modifies SpecEmitted, SpecLastOp
+
+//@ # ---- structured control flow (ghost): number of blocks (block / loop / if) opened and not yet
+//@ # closed through a Writer. `br L` at that point targets the block opened at level SpecOpen - L.
+//@ # (assumed: fewer than 2^31 blocks are ever open at once - each costs bytes in a buffer in memory)
+//@ ghost SpecOpen map[*Writer]int
+//@ trusted func (e *Writer) WriteIf(resultType BlockType)
+//@   ensures SpecOpen[e] == old(SpecOpen[e]) + 1 && SpecOpen[e] <= 2147483647
+//@   ensures forall x *Writer :: x != e ==> SpecOpen[x] == old(SpecOpen[x])
+//@   modifies SpecOpen
+//@ trusted func (e *Writer) WriteBlock(resultType BlockType)
+//@   ensures SpecOpen[e] == old(SpecOpen[e]) + 1 && SpecOpen[e] <= 2147483647
+//@   ensures forall x *Writer :: x != e ==> SpecOpen[x] == old(SpecOpen[x])
+//@   modifies SpecOpen
+//@ trusted func (e *Writer) WriteLoop(resultType BlockType)
+//@   ensures SpecOpen[e] == old(SpecOpen[e]) + 1 && SpecOpen[e] <= 2147483647
+//@   ensures forall x *Writer :: x != e ==> SpecOpen[x] == old(SpecOpen[x])
+//@   modifies SpecOpen
+//@ trusted func (e *Writer) WriteEnd()
+//@   ensures SpecOpen[e] == old(SpecOpen[e]) - 1
+//@   ensures forall x *Writer :: x != e ==> SpecOpen[x] == old(SpecOpen[x])
+//@   modifies SpecOpen
